@@ -133,8 +133,8 @@ Definition cinv (x : conn) : Prop :=
     (c_closed x = false -> c_wstop x = true -> c_tasks x = [])
   end.
 
-Lemma cinv_new : forall k, cinv (new_conn k).
-Proof. destruct k; unfold cinv; simpl; intuition (try discriminate; try lia). Qed.
+Lemma cinv_new : forall k cap, cinv (new_conn k cap).
+Proof. destruct k; intros; unfold cinv; simpl; intuition (try discriminate; try lia). Qed.
 
 Ltac break_match :=
   match goal with
@@ -178,7 +178,7 @@ Ltac norm :=
 
 Lemma cinv_cstep : forall sg x a x', cinv x -> cstep sg x a = Some x' -> cinv x'.
 Proof.
-  intros sg [kd inb tk q w ph wr ws cl tok sb] a x' I H.
+  intros sg [kd inb tk q w ph wr ws cl tok sb cp] a x' I H.
   unfold cinv in *; simpl in *.
   destruct a; cstep_cases H; simpl in *; subst; simpl in *; norm; simpl in *;
     try (destruct kd; simpl in * );
@@ -190,32 +190,32 @@ Qed.
 
 Lemma cinv_csend : forall x k x', cinv x -> csend x k = Some x' -> cinv x'.
 Proof.
-  intros [kd inb tk q w ph wr ws cl tok sb] k x' I H. unfold csend in H; simpl in H.
+  intros [kd inb tk q w ph wr ws cl tok sb cp] k x' I H. unfold csend in H; simpl in H.
   destruct cl; inversion H; subst. exact I.
 Qed.
 
 (* PDone is absorbing; tokens never come back; the client stays gone *)
 Lemma cstep_done : forall sg x a x', cstep sg x a = Some x' -> c_phase x = PDone -> c_phase x' = PDone.
 Proof.
-  intros sg [kd inb tk q w ph wr ws cl tok sb] a x' H D. simpl in D. subst.
+  intros sg [kd inb tk q w ph wr ws cl tok sb cp] a x' H D. simpl in D. subst.
   destruct a; cstep_cases H; simpl in *; auto.
 Qed.
 
 Lemma cstep_tok : forall sg x a x', cstep sg x a = Some x' -> c_tok x = false -> c_tok x' = false.
 Proof.
-  intros sg [kd inb tk q w ph wr ws cl tok sb] a x' H D. simpl in D. subst.
+  intros sg [kd inb tk q w ph wr ws cl tok sb cp] a x' H D. simpl in D. subst.
   destruct a; cstep_cases H; simpl in *; auto.
 Qed.
 
 Lemma cstep_closed : forall sg x a x', cstep sg x a = Some x' -> c_closed x = true -> c_closed x' = true.
 Proof.
-  intros sg [kd inb tk q w ph wr ws cl tok sb] a x' H D. simpl in D. subst.
+  intros sg [kd inb tk q w ph wr ws cl tok sb cp] a x' H D. simpl in D. subst.
   destruct a; cstep_cases H; simpl in *; auto.
 Qed.
 
 Lemma cstep_kind : forall sg x a x', cstep sg x a = Some x' -> c_kind x' = c_kind x.
 Proof.
-  intros sg [kd inb tk q w ph wr ws cl tok sb] a x' H.
+  intros sg [kd inb tk q w ph wr ws cl tok sb cp] a x' H.
   destruct a; cstep_cases H; simpl in *; auto.
 Qed.
 
@@ -223,7 +223,7 @@ Qed.
 Lemma cstep_done_tasks : forall sg x a x' (P : N -> Prop), cstep sg x a = Some x' -> c_phase x = PDone ->
   Forall (fun t => P (fst t)) (c_tasks x) -> Forall (fun t => P (fst t)) (c_tasks x').
 Proof.
-  intros sg [kd inb tk q w ph wr ws cl tok sb] a x' P H D F. simpl in D, F. subst.
+  intros sg [kd inb tk q w ph wr ws cl tok sb cp] a x' P H D F. simpl in D, F. subst.
   destruct a; cstep_cases H; simpl in *; auto;
     try (eapply set_first_Forall_fst; eauto; fail); try (eapply remove_first_Forall; eauto; fail).
 Qed.
@@ -240,7 +240,7 @@ Qed.
 
 Lemma ids_cstep : forall sg n x a x', ids_lt n x -> cstep sg x a = Some x' -> ids_lt n x'.
 Proof.
-  intros sg n [kd inb tk q w ph wr ws cl tok sb] a x' [A B] H. unfold ids_lt in *. simpl in *.
+  intros sg n [kd inb tk q w ph wr ws cl tok sb cp] a x' [A B] H. unfold ids_lt in *. simpl in *.
   destruct a; cstep_cases H; simpl in *; subst;
     repeat match goal with H : Forall _ (_ :: _) |- _ => inversion H; subst; clear H end;
     try (split; auto; fail);
@@ -251,7 +251,7 @@ Qed.
 
 Lemma ids_csend : forall n x x', ids_lt n x -> csend x n = Some x' -> ids_lt (N.succ n) x'.
 Proof.
-  intros n [kd inb tk q w ph wr ws cl tok sb] x' [A B] H. unfold csend in H. simpl in *.
+  intros n [kd inb tk q w ph wr ws cl tok sb cp] x' [A B] H. unfold csend in H. simpl in *.
   destruct cl; inversion H; subst. split; simpl.
   - apply Forall_app. split; [eapply Forall_impl; try eassumption; simpl; intros; lia | constructor; auto; lia].
   - eapply Forall_impl; try eassumption; simpl; intros; lia.
@@ -280,7 +280,7 @@ Proof. reflexivity. Qed.
 Lemma live_cstep : forall sg x a x' k, cinv x -> cstep sg x a = Some x' -> c_closed x' = false ->
   live x' k = live x k + start_inc_c a k.
 Proof.
-  intros sg [kd inb tk q w ph wr ws cl tok sb] a x' k I H C.
+  intros sg [kd inb tk q w ph wr ws cl tok sb cp] a x' k I H C.
   unfold cinv, live in *. simpl in *.
   destruct a; cstep_cases H; simpl in *; subst; simpl in *; try discriminate;
     repeat match goal with
@@ -304,20 +304,20 @@ Qed.
 
 Lemma live_csend : forall x n x' k, csend x n = Some x' -> live x' k = live x k.
 Proof.
-  intros [kd inb tk q w ph wr ws cl tok sb] n x' k H. unfold csend in H. simpl in H.
+  intros [kd inb tk q w ph wr ws cl tok sb cp] n x' k H. unfold csend in H. simpl in H.
   destruct cl; inversion H; subst. reflexivity.
 Qed.
 
 Lemma csend_closed : forall x n x', csend x n = Some x' -> c_closed x' = c_closed x.
 Proof.
-  intros [kd inb tk q w ph wr ws cl tok sb] n x' H. unfold csend in H. simpl in H.
+  intros [kd inb tk q w ph wr ws cl tok sb cp] n x' H. unfold csend in H. simpl in H.
   destruct cl; inversion H; subst. reflexivity.
 Qed.
 
 Lemma csend_same : forall x n x', csend x n = Some x' ->
   c_phase x' = c_phase x /\ c_tok x' = c_tok x /\ c_tasks x' = c_tasks x /\ c_kind x' = c_kind x.
 Proof.
-  intros [kd inb tk q w ph wr ws cl tok sb] n x' H. unfold csend in H. simpl in H.
+  intros [kd inb tk q w ph wr ws cl tok sb cp] n x' H. unfold csend in H. simpl in H.
   destruct cl; inversion H; subst. simpl. auto.
 Qed.
 
@@ -328,8 +328,8 @@ Definition sinv (s : state) : Prop :=
   (s_accept s = ADone -> Forall (fun x => c_tok x = false) (s_conns s)) /\
   (s_resolved s = true -> all_dropped s = true).
 
-Lemma sinv_init : sinv init.
-Proof. unfold sinv, init; simpl. repeat split; auto; discriminate. Qed.
+Lemma sinv_init : forall cap, sinv (init_cap cap).
+Proof. intros. unfold sinv, init_cap; simpl. repeat split; auto; discriminate. Qed.
 
 Lemma all_dropped_accept : forall s, all_dropped s = true -> s_accept s = ADone.
 Proof. unfold all_dropped, accept_done. intros. destruct (s_accept s); simpl in *; auto; discriminate. Qed.
@@ -496,7 +496,7 @@ Definition start_inc (s : state) (a : action) (c : nat) (k : N) : nat :=
 Lemma starts_cons : forall s a r c k, starts s (a :: r) c k = start_inc s a c k + starts (fst (step s a)) r c k.
 Proof. reflexivity. Qed.
 
-Lemma live_new : forall kd k, live (new_conn kd) k = 0.
+Lemma live_new : forall kd cap k, live (new_conn kd cap) k = 0.
 Proof. destruct kd; reflexivity. Qed.
 
 Lemma step_live : forall s a c k x1, sinv s ->
@@ -580,7 +580,7 @@ Lemma done_conn : forall x, cinv x -> c_phase x = PDone ->
   c_writer x = WFin /\ c_queue x = [] /\ (c_closed x = false -> c_tasks x = []) /\
   (c_tasks x <> [] -> c_kind x = KWs /\ c_closed x = true) /\ (c_kind x = KHttp -> c_tok x = false).
 Proof.
-  intros [kd inb tk q w ph wr ws cl tok sb] I D. unfold cinv in I. simpl in *. subst.
+  intros [kd inb tk q w ph wr ws cl tok sb cp] I D. unfold cinv in I. simpl in *. subst.
   destruct kd.
   - destruct I as (I1 & I2 & I3 & I4 & I5 & I6 & I7). repeat split; auto; try (intros; exfalso; auto; fail).
     intros _. apply I7. auto.
@@ -598,29 +598,29 @@ Qed.
 
 (* ------------------------------------------------------------------ C10: started calls are answered *)
 
-Lemma started_calls_answered : forall tr c k x,
-  s_resolved (run init tr) = true ->
-  nth_error (s_conns (run init tr)) c = Some x -> c_closed x = false ->
-  count_occ N.eq_dec (c_wire x) k = starts init tr c k.
+Lemma started_calls_answered : forall cap tr c k x,
+  s_resolved (run (init_cap cap) tr) = true ->
+  nth_error (s_conns (run (init_cap cap) tr)) c = Some x -> c_closed x = false ->
+  count_occ N.eq_dec (c_wire x) k = starts (init_cap cap) tr c k.
 Proof.
-  intros tr c k x R H C.
-  pose proof (run_sinv tr init sinv_init) as I.
+  intros cap tr c k x R H C.
+  pose proof (run_sinv tr (init_cap cap) (sinv_init cap)) as I.
   destruct I as (I1 & I2 & I3 & I4). specialize (I4 R).
   assert (D : c_phase x = PDone).
   { apply phase_done_eq. eapply forallb_nth; eauto. apply all_dropped_conns; auto. }
   rewrite <- (live_done x k (Forall_nth _ _ _ _ _ I1 H) D C).
-  rewrite (run_live tr init c k x sinv_init H C). unfold livec. simpl. destruct c; reflexivity.
+  rewrite (run_live tr (init_cap cap) c k x (sinv_init cap) H C). unfold livec. simpl. destruct c; reflexivity.
 Qed.
 
 (* ------------------------------------------------------------------ C10: stopped only after everything *)
 
-Lemma stopped_after_all : forall tr, effective (run init tr) StoppedResolves = true ->
-  s_accept (run init tr) = ADone /\
+Lemma stopped_after_all : forall cap tr, effective (run (init_cap cap) tr) StoppedResolves = true ->
+  s_accept (run (init_cap cap) tr) = ADone /\
   Forall (fun x => c_phase x = PDone /\ c_tok x = false /\ c_writer x = WFin /\ c_queue x = [] /\
-                   (c_closed x = false -> c_tasks x = [])) (s_conns (run init tr)).
+                   (c_closed x = false -> c_tasks x = [])) (s_conns (run (init_cap cap) tr)).
 Proof.
-  intros tr E. set (s := run init tr) in *.
-  pose proof (run_sinv tr init sinv_init) as (I1 & I2 & I3 & I4). fold s in I1, I2, I3, I4.
+  intros cap tr E. set (s := run (init_cap cap) tr) in *.
+  pose proof (run_sinv tr (init_cap cap) (sinv_init cap)) as (I1 & I2 & I3 & I4). fold s in I1, I2, I3, I4.
   assert (D : all_dropped s = true).
   { unfold effective, step in E. destruct (s_handles s); simpl in E; try discriminate.
     destruct (all_dropped s); auto. }
@@ -652,15 +652,15 @@ Qed.
 Lemma quiet_run : forall tr b s, quiet b s -> quiet b (run s tr).
 Proof. induction tr; simpl; intros; auto. apply IHtr, quiet_step; auto. Qed.
 
-Lemma nothing_after_stopped : forall tr1 tr2,
-  s_resolved (run init tr1) = true ->
-  (forall kd, effective (run init (tr1 ++ tr2)) (Connect kd) = false) /\
-  (forall c k, effective (run init (tr1 ++ tr2)) (Conn c (CStart k)) = true ->
-     (k < s_next (run init tr1))%N /\
-     exists x, nth_error (s_conns (run init (tr1 ++ tr2))) c = Some x /\ c_kind x = KWs /\ c_closed x = true).
+Lemma nothing_after_stopped : forall cap tr1 tr2,
+  s_resolved (run (init_cap cap) tr1) = true ->
+  (forall kd, effective (run (init_cap cap) (tr1 ++ tr2)) (Connect kd) = false) /\
+  (forall c k, effective (run (init_cap cap) (tr1 ++ tr2)) (Conn c (CStart k)) = true ->
+     (k < s_next (run (init_cap cap) tr1))%N /\
+     exists x, nth_error (s_conns (run (init_cap cap) (tr1 ++ tr2))) c = Some x /\ c_kind x = KWs /\ c_closed x = true).
 Proof.
-  intros tr1 tr2 R. rewrite run_app. set (s1 := run init tr1) in *.
-  pose proof (run_sinv tr1 init sinv_init) as I. fold s1 in I.
+  intros cap tr1 tr2 R. rewrite run_app. set (s1 := run (init_cap cap) tr1) in *.
+  pose proof (run_sinv tr1 (init_cap cap) (sinv_init cap)) as I. fold s1 in I.
   assert (Q : quiet (s_next s1) s1).
   { split; auto. destruct I as (I1 & I2 & I3 & I4). split; auto.
     eapply Forall_impl; try eassumption. intros x [_ B]. exact B. }
@@ -730,10 +730,56 @@ Proof. destruct a; reflexivity. Qed.
 Lemma set_first_head : forall k a b r, set_first (k, a) (k, b) ((k, a) :: r) = Some ((k, b) :: r).
 Proof. intros. simpl. rewrite task_eqb_refl. reflexivity. Qed.
 
-Lemma conn_progress : forall x, cinv x -> c_phase x <> PDone ->
+(* the queue capacity is a constant of the server, copied into every connection *)
+Lemma cstep_cap : forall sg x a x', cstep sg x a = Some x' -> c_cap x' = c_cap x.
+Proof.
+  intros sg [kd inb tk q w ph wr ws cl tok sb cp] a x' H.
+  destruct a; cstep_cases H; simpl in *; auto.
+Qed.
+
+Lemma csend_cap : forall x n x', csend x n = Some x' -> c_cap x' = c_cap x.
+Proof.
+  intros [kd inb tk q w ph wr ws cl tok sb cp] n x' H. unfold csend in H. simpl in H.
+  destruct cl; inversion H; subst. reflexivity.
+Qed.
+
+Definition capinv (s : state) : Prop := Forall (fun x => c_cap x = s_cap s) (s_conns s).
+
+Lemma step_cap : forall s a, s_cap (fst (step s a)) = s_cap s.
+Proof.
+  intros s a. destruct a; unfold step;
+    repeat match goal with |- context [match ?e with _ => _ end] => destruct e eqn:? end; reflexivity.
+Qed.
+
+Lemma step_capinv : forall s a, capinv s -> capinv (fst (step s a)).
+Proof.
+  intros s a I. unfold capinv in *. rewrite step_cap.
+  destruct a; unfold step.
+  - destruct (s_accept s); simpl; auto. apply Forall_app_one; auto; destruct k; reflexivity.
+  - destruct (nth_error (s_conns s) c) eqn:E; simpl; auto.
+    destruct (csend c0 (s_next s)) eqn:E2; simpl; auto.
+    apply Forall_upd; auto. rewrite (csend_cap _ _ _ E2). exact (Forall_nth _ (fun x => c_cap x = s_cap s) _ _ _ I E).
+  - destruct (nth_error (s_conns s) c) eqn:E; simpl; auto.
+    destruct (cstep (sig s) c0 a) eqn:E2; simpl; auto.
+    apply Forall_upd; auto. rewrite (cstep_cap _ _ _ _ E2). exact (Forall_nth _ (fun x => c_cap x = s_cap s) _ _ _ I E).
+  - destruct (s_accept s); try destruct (sig s); simpl; auto.
+  - destruct (s_accept s); try destruct (forallb (fun x => negb (c_tok x)) (s_conns s)); simpl; auto.
+  - destruct (s_handles s); try destruct (all_dropped s); simpl; auto.
+  - destruct (s_handles s); simpl; auto.
+  - destruct (s_handles s); simpl; auto.
+  - destruct (s_handles s); try destruct (all_dropped s && negb (s_resolved s)); simpl; auto.
+Qed.
+
+Lemma run_capinv : forall tr s, capinv s -> capinv (run s tr) /\ s_cap (run s tr) = s_cap s.
+Proof.
+  induction tr; simpl; intros; auto.
+  destruct (IHtr _ (step_capinv s a H)) as [A B]. split; auto. rewrite B. apply step_cap.
+Qed.
+
+Lemma conn_progress : forall x, cinv x -> 1 <= c_cap x -> c_phase x <> PDone ->
   exists a, cact_internal a = true /\ cstep true x a <> None.
 Proof.
-  intros [kd inb tk q w ph wr ws cl tok sb] I D. unfold cinv in I. simpl in *.
+  intros [kd inb tk q w ph wr ws cl tok sb cp] I Cp D. unfold cinv in I. simpl in *.
   destruct kd.
   - (* HTTP *)
     destruct I as (I1 & I2 & I3 & I4 & I5 & I6 & I7).
@@ -754,8 +800,15 @@ Proof.
       * destruct ts.
         -- exists (CStart k). split; auto. unfold cstep. simpl c_tasks. rewrite set_first_head. discriminate.
         -- exists (CFinish k). split; auto. unfold cstep. simpl c_tasks. rewrite set_first_head. discriminate.
-        -- exists (CEnqueue k). split; auto. unfold cstep. simpl c_kind. simpl c_tasks. simpl remove_first.
-           rewrite task_eqb_refl. destruct wr; discriminate.
+        -- (* a returned call: it is queued if there is room (or the queue is closed), else the writer can write *)
+           destruct wr.
+           ++ destruct (Nat.ltb (length q) cp) eqn:L.
+              ** exists (CEnqueue k). split; auto. unfold cstep. simpl c_kind. simpl c_tasks. simpl remove_first.
+                 rewrite task_eqb_refl. simpl. rewrite L. discriminate.
+              ** apply Nat.ltb_ge in L. destruct q; [simpl in L; lia |].
+                 exists CWrite. split; auto. simpl. destruct cl; discriminate.
+           ++ exists (CEnqueue k). split; auto. unfold cstep. simpl c_kind. simpl c_tasks. simpl remove_first.
+              rewrite task_eqb_refl. discriminate.
     + assert (S : ws = true) by (apply I2; auto). subst.
       destruct wr.
       * destruct q.
@@ -772,11 +825,14 @@ Proof.
   - exists 0, a. auto.
 Qed.
 
-Lemma no_hang : forall tr, let s := run init tr in
+Lemma no_hang : forall cap tr, 1 <= cap -> let s := run (init_cap cap) tr in
   sig s = true -> all_dropped s = false -> exists a, internal a = true /\ effective s a = true.
 Proof.
-  intros tr s Sg D.
-  pose proof (run_sinv tr init sinv_init) as (I1 & I2 & I3 & I4). fold s in I1, I2, I3, I4.
+  intros cap tr Cp s Sg D.
+  assert (CI : Forall (fun x => 1 <= c_cap x) (s_conns s)).
+  { destruct (run_capinv tr (init_cap cap)) as [A B]; [constructor |]. fold s in A, B. simpl in B.
+    unfold capinv in A. eapply Forall_impl; try eassumption. simpl. intros x Hx. rewrite Hx, B. exact Cp. }
+  pose proof (run_sinv tr (init_cap cap) (sinv_init cap)) as (I1 & I2 & I3 & I4). fold s in I1, I2, I3, I4.
   destruct (s_accept s) eqn:A.
   - exists AcceptSeeStop. split; auto. unfold effective, step. rewrite A, Sg. reflexivity.
   - (* draining *)
@@ -792,14 +848,14 @@ Proof.
         -- destruct (c_tok x); auto; discriminate.
     + destruct (forallb_false_nth _ _ _ F) as (n & x & N1 & P).
       assert (Dn : c_phase x <> PDone) by (intro Z; apply phase_done_eq in Z; congruence).
-      destruct (conn_progress x (Forall_nth _ _ _ _ _ I1 N1) Dn) as (a & Ia & St).
+      destruct (conn_progress x (Forall_nth _ _ _ _ _ I1 N1) (Forall_nth _ (fun x => 1 <= c_cap x) _ _ _ CI N1) Dn) as (a & Ia & St).
       exists (Conn n a). rewrite internal_conn. split; auto. rewrite effective_conn, N1, Sg.
       destruct (cstep true x a); auto; congruence.
   - (* accept loop has returned: some connection is not done *)
     unfold all_dropped, accept_done in D. rewrite A in D. simpl in D.
     destruct (forallb_false_nth _ _ _ D) as (n & x & N1 & P).
     assert (Dn : c_phase x <> PDone) by (intro Z; apply phase_done_eq in Z; congruence).
-    destruct (conn_progress x (Forall_nth _ _ _ _ _ I1 N1) Dn) as (a & Ia & St).
+    destruct (conn_progress x (Forall_nth _ _ _ _ _ I1 N1) (Forall_nth _ (fun x => 1 <= c_cap x) _ _ _ CI N1) Dn) as (a & Ia & St).
     exists (Conn n a). rewrite internal_conn. split; auto. rewrite effective_conn, N1, Sg.
     destruct (cstep true x a); auto; congruence.
 Qed.
@@ -846,7 +902,7 @@ Qed.
 
 Lemma cstep_decreases : forall sg x a x', cact_internal a = true -> cstep sg x a = Some x' -> cmu x' < cmu x.
 Proof.
-  intros sg [kd inb tk q w ph wr ws cl tok sb] a x' Ia H. unfold cmu.
+  intros sg [kd inb tk q w ph wr ws cl tok sb cp] a x' Ia H. unfold cmu.
   destruct a; try discriminate Ia; cstep_cases H; simpl in *; subst; simpl in *;
     repeat match goal with
            | HH : set_first _ _ _ = Some _ |- _ => apply set_first_tsum in HH; unfold tweight in HH; simpl in HH
@@ -883,15 +939,15 @@ Qed.
 Lemma starts_app : forall t1 t2 s c k, starts s (t1 ++ t2) c k = starts s t1 c k + starts (run s t1) t2 c k.
 Proof. induction t1; simpl; intros; auto. rewrite IHt1. lia. Qed.
 
-Lemma started_before_stop_answered : forall pre post c k x,
-  sig (run init pre) = false ->
-  effective (run init pre) (Conn c (CStart k)) = true ->
+Lemma started_before_stop_answered : forall cap pre post c k x,
+  sig (run (init_cap cap) pre) = false ->
+  effective (run (init_cap cap) pre) (Conn c (CStart k)) = true ->
   let tr := pre ++ Conn c (CStart k) :: post in
-  s_resolved (run init tr) = true -> nth_error (s_conns (run init tr)) c = Some x -> c_closed x = false ->
+  s_resolved (run (init_cap cap) tr) = true -> nth_error (s_conns (run (init_cap cap) tr)) c = Some x -> c_closed x = false ->
   In k (c_wire x).
 Proof.
-  intros pre post c k x _ E tr R H C.
+  intros cap pre post c k x _ E tr R H C.
   apply (count_occ_In N.eq_dec).
-  rewrite (started_calls_answered tr c k x R H C).
+  rewrite (started_calls_answered cap tr c k x R H C).
   unfold tr. rewrite starts_app. simpl. rewrite Nat.eqb_refl, N.eqb_refl, E. simpl. lia.
 Qed.
